@@ -73,7 +73,8 @@ def make_names_case(k, chunk, unit_system=None):
                 ctx.require(f"documented/{name}", False, why="exposed name has no reading by the documented rules")
                 continue
             pv, sym = exp
-            lab = label_of(name, T)
+            lab = label_of(name, T)          # reading kind + base spelling (string route: fine-grained fingerprints)
+            kind = lab.split("/")[0]         # the other access paths are fingerprinted per reading kind; the name is in the info
             E = oracle_var(ctx, "e:" + name, S[sym] * pv)
             # 1. by string
             r = call(Unit, name, registry=reg)
@@ -88,28 +89,28 @@ def make_names_case(k, chunk, unit_system=None):
             a = us_ns.get(name)
             if name and name != "_":
                 if not isinstance(a, Unit):
-                    ctx.require(f"attribute/{lab}", False, why="not an attribute of unyt.unit_symbols")
+                    ctx.require(f"attribute/{kind}", False, why="not an attribute of unyt.unit_symbols")
                 else:
                     ra = call(Unit, a.expr, registry=reg)
                     ok = ra[0] == "ok" and _unit_ok(ctx, ra[1], E, T, exp)
                     ground = And(close(a.base_value, float(T.rows[sym][0]) * pv), dimvec(a.dimensions) == dimvec(T.rows[sym][1]))
-                    ctx.require(f"attribute/{lab}", And(ok, ground), name=name, expected=f"{pv}*{sym}", got=str(a))
+                    ctx.require(f"attribute/{kind}", And(ok, ground), name=name, expected=f"{pv}*{sym}", got=str(a))
                     t = top_ns.get(name)
                     if isinstance(t, Unit):
-                        ctx.require(f"top-level/{lab}", t is a or (t.expr == a.expr and t.registry is a.registry))
+                        ctx.require(f"top-level/{kind}", t is a or (t.expr == a.expr and t.registry is a.registry))
                     elif t is None:
-                        ctx.require(f"top-level/{lab}", False, why="unit_symbols attribute missing from the top-level namespace")
+                        ctx.require(f"top-level/{kind}", False, why="unit_symbols attribute missing from the top-level namespace")
                     # else: shadowed by a physical constant of the same name -> C15(c)
             # 3. through the namespace of a custom registry
             if name and name != "_":
                 n = ns.get(name)
                 if n is None:
-                    ctx.require(f"registry-namespace/{lab}", False, why="add_symbols did not create the name")
+                    ctx.require(f"registry-namespace/{kind}", False, why="add_symbols did not create the name")
                 else:
                     ok = _unit_ok(ctx, n, E, T, exp)
                     if u_str is not None:
                         ok = And(ok, close(n.base_value, u_str.base_value), n.dimensions == u_str.dimensions, n.registry is reg)
-                    ctx.require(f"registry-namespace/{lab}", ok, name=name, expected=f"{pv}*{sym}", got=str(n))
+                    ctx.require(f"registry-namespace/{kind}", ok, name=name, expected=f"{pv}*{sym}", got=str(n))
     tag = f"names-{unit_system}" if unit_system else "names"
     return Case(f"C14/{tag}/{k:02d}", h, bounds=f"{len(chunk)} names, 145 symbolic scales", budget_s=600, weight=5)
 
@@ -303,7 +304,7 @@ def make_reject_case(k, chunk, exc):
             else:
                 n_rej += 1
                 ok = r[0] == "raise" and isinstance(r[1], unyt.exceptions.UnitParseError)
-                ctx.require(f"prefix on non-prefixable unit rejected/{m}", ok, string=m,
+                ctx.require("prefix on non-prefixable unit rejected", ok, string=m,
                             got=(str(r[1]) if r[0] == "ok" else type(r[1]).__name__))
         ctx.observe("rejected", n_rej)
     return Case(f"C14/strings/reject/{k:02d}", h, bounds=f"{len(chunk)} prefix++non-prefixable strings")
